@@ -93,6 +93,24 @@ def cmpIntFloat (i : Int) (f : F64) : Int :=
 
 namespace Obj
 
+mutual
+/-- the values a program can compare: no RETURN / MACRO object inside, every integer an int64 -/
+def isData : Obj → Bool
+  | .ret _ => false
+  | .mac _ => false
+  | .int v => decide (minInt64 ≤ v ∧ v ≤ maxInt64)
+  | .reg v => decide (minInt64 ≤ v ∧ v ≤ maxInt64)
+  | .arr els => isDataList els
+  | .map kvs => isDataKVs kvs
+  | _ => true
+def isDataList : List Obj → Bool
+  | [] => true
+  | x :: xs => isData x && isDataList xs
+def isDataKVs : List (Obj × Obj) → Bool
+  | [] => true
+  | (k, v) :: xs => isData k && isData v && isDataKVs xs
+end
+
 /-- `IsIntType` -/
 def isIntType (t : Nat) : Bool := t == 1 || t == 15
 /-- `TypeEqual` -/
